@@ -1,4 +1,5 @@
 import CedarVerif.Lemmas.Auth
+import CedarVerif.Lemmas.EvalExt
 /-
 C01 — Authorization: default-deny, forbid-overrides, skip-on-error, pure function.
 Property theorems only (helper lemmas live in Lemmas/Auth.lean). All statements are about
@@ -130,6 +131,88 @@ theorem deny_otherwise (ps : List Policy) :
 /-- C01: a policy whose evaluation errors is not satisfied (so it can never be a reason). -/
 theorem erroring_not_satisfied (p : Policy) : Errs req es p → ¬ Sat req es p := by
   unfold Errs Sat; intro h; rw [h]; simp
+
+
+/-! ### purity: the response is a function of (policies, request, store-as-a-lookup-function) -/
+
+/-- C01: stores with the same lookup function give the same response — the response does not depend on entity
+    insertion order, duplicates shadowed by earlier entries, or any other representation detail of the store. -/
+theorem store_extensional (es₁ es₂ : Entities) (h : ∀ u, es₁.find? u = es₂.find? u) (ps : List Policy) :
+    isAuthorized req es₁ ps = isAuthorized req es₂ ps := by
+  have ho : ∀ p : Policy, p.outcome req es₁ = p.outcome req es₂ := by
+    intro p; simp [Policy.outcome, evaluate_ext req p.env es₁ es₂ h p.condition]
+  have hs : Buckets.step req es₁ = Buckets.step req es₂ := by
+    funext b p; simp [Buckets.step, ho p]
+  simp [isAuthorized, hs]
+
+/-- respelling of policy ids -/
+def Policy.rename (ρ : String → String) (p : Policy) : Policy := { p with id := ρ p.id }
+
+def Buckets.rename (ρ : String → String) (b : Buckets) : Buckets :=
+  { satPermits := b.satPermits.map ρ,
+    falsePermits := b.falsePermits.map (fun x => (ρ x.1, x.2)),
+    satForbids := b.satForbids.map ρ,
+    falseForbids := b.falseForbids.map (fun x => (ρ x.1, x.2)),
+    errors := b.errors.map ρ }
+
+def Response.rename (ρ : String → String) (r : Response) : Response :=
+  { decision := r.decision, reasons := r.reasons.map ρ, errors := r.errors.map ρ }
+
+theorem step_rename (ρ : String → String) (b : Buckets) (p : Policy) :
+    Buckets.step req es (Buckets.rename ρ b) (Policy.rename ρ p) = Buckets.rename ρ (Buckets.step req es b p) := by
+  have ho : (Policy.rename ρ p).outcome req es = p.outcome req es := rfl
+  have he : (Policy.rename ρ p).effect = p.effect := rfl
+  simp only [Buckets.step, ho, he]
+  cases p.outcome req es <;> cases p.effect <;> simp [Buckets.rename, Policy.rename]
+
+theorem foldl_rename (ρ : String → String) (ps : List Policy) (b : Buckets) :
+    (ps.map (Policy.rename ρ)).foldl (Buckets.step req es) (Buckets.rename ρ b) =
+      Buckets.rename ρ (ps.foldl (Buckets.step req es) b) := by
+  induction ps generalizing b with
+  | nil => rfl
+  | cons p ps ih => simp only [List.map_cons, List.foldl_cons, step_rename, ih]
+
+theorem concretize_rename (ρ : String → String) (b : Buckets) :
+    (Buckets.rename ρ b).concretize = Response.rename ρ b.concretize := by
+  simp only [Buckets.concretize, Buckets.rename, Response.rename, List.isEmpty_map]
+  cases hf : b.satForbids.isEmpty <;> cases hp : b.satPermits.isEmpty <;> simp
+
+/-- C01: the response does not depend on how policy ids are spelled: renaming every id by any function `ρ`
+    renames the ids in the response and changes nothing else (decision included). -/
+theorem rename_equivariant (ρ : String → String) (ps : List Policy) :
+    isAuthorized req es (ps.map (Policy.rename ρ)) = Response.rename ρ (isAuthorized req es ps) := by
+  have h := foldl_rename req es ρ ps {}
+  have h0 : Buckets.rename ρ {} = ({} : Buckets) := rfl
+  rw [h0] at h
+  unfold isAuthorized
+  rw [h, concretize_rename]
+
+/-- C01 (mirror = spec): the whole response, stated declaratively. -/
+theorem mirror_eq_spec (ps : List Policy) :
+    let r := isAuthorized req es ps
+    let satisfied (eff : Effect) := ps.filter (fun p => p.effect == eff && p.outcome req es == .sat)
+    r.decision = (if !(satisfied .permit).isEmpty && (satisfied .forbid).isEmpty then .allow else .deny) ∧
+    r.reasons = (if (satisfied .forbid).isEmpty then (satisfied .permit).map (·.id) else (satisfied .forbid).map (·.id)) ∧
+    r.errors = (ps.filter (fun p => p.outcome req es == .err)).map (·.id) := by
+  -- the bucket lists are exactly the filtered lists, in policy order
+  have key : ∀ (ps : List Policy) (b : Buckets),
+      (ps.foldl (Buckets.step req es) b).satPermits =
+        b.satPermits ++ (ps.filter (fun p => p.effect == .permit && p.outcome req es == .sat)).map (·.id) ∧
+      (ps.foldl (Buckets.step req es) b).satForbids =
+        b.satForbids ++ (ps.filter (fun p => p.effect == .forbid && p.outcome req es == .sat)).map (·.id) ∧
+      (ps.foldl (Buckets.step req es) b).errors =
+        b.errors ++ (ps.filter (fun p => p.outcome req es == .err)).map (·.id) := by
+    intro ps
+    induction ps with
+    | nil => intro b; simp
+    | cons p ps ih =>
+      intro b
+      obtain ⟨h1, h2, h3⟩ := ih (Buckets.step req es b p)
+      simp only [List.foldl_cons, h1, h2, h3]
+      cases ho : p.outcome req es <;> cases he : p.effect <;> simp [Buckets.step, ho, he]
+  obtain ⟨h1, h2, h3⟩ := key ps {}
+  simp only [isAuthorized, Buckets.concretize, h1, h2, h3, List.nil_append, List.isEmpty_map]
+  simp
 
 /-- non-vacuity: a concrete set with a satisfied permit, an erroring permit and a satisfied forbid -/
 example :
